@@ -239,7 +239,9 @@ def run_case(case, ctx):
         elif layout == "transposed":
             sample = np.array([sample[:, 0], sample[:, 1]]).T
         elif layout == "strided-view":
-            sample = np.c_[sample, sample][:, ::2][:, :2] if sample.shape[1] == 2 else sample
+            wide = np.zeros((sample.shape[0], 2 * sample.shape[1]), dtype=sample.dtype)
+            wide[:, ::2] = sample
+            sample = wide[:, ::2]  # the same values, every second column of a wider array
         pristine = sample.copy()
         con = DirectSamplingContour(_Dummy2D(), case["alpha"], deg_step=case["deg_step"], sample=sample)
         ctx.check("c03.sample-untouched", (con.sample is sample or np.array_equal(con.sample, pristine)) and sample.shape == pristine.shape and sample.tobytes() == pristine.tobytes(), "the supplied sample was replaced or modified in place", layout=layout, dtype=str(sample.dtype))
